@@ -1,6 +1,7 @@
 //! E3 `conc`: multi-threaded history recorder + offline checkers. Serves C05, C15, C18.
 
 mod c05;
+mod c11;
 mod c15;
 mod c18;
 mod delays;
@@ -43,6 +44,17 @@ fn spec_for(prop: &str, _tier: Tier) -> Option<Spec> {
 			s.assumptions.push("'always' is decided as bounded progress: a stall of 60 s with pending work counts as never".into());
 			s
 		},
+		"C11" => Spec::new(
+			"C11",
+			"exploration",
+			"Threaded variant: a case is one 1-5 s history with live workers: a writer inserts trees that share nodes with the previous tree (holding the previous tree's read guard until its commit returned), a pruner dereferences the oldest trees, 3 reader threads take a read guard on a random live tree and re-read the whole tree repeatedly while holding it (it must equal what its commit wrote and never change or vanish under the guard); seeded delays at the yield hooks. After the threads stop and every guard is released - and WITHOUT further commits - every postponed removal must complete within 45 s (dereferenced trees unreadable, value-entry count equal to the model's live nodes + roots) and every live tree must read back exactly. evaluations = guarded re-reads + final comparisons; distinct_nontrivial = distinct (always_flush, counted roots, postponement observed, dereference while guarded observed) classes.",
+		)
+		.require("guards_taken", 200)
+		.require("guard_reads", 2000)
+		.require("guard_held_derefs", 5)
+		.require("deferred_commits", 5)
+		.require("completion_checks", 10)
+		.budget(45, 600),
 		"C18" => Spec::new(
 			"C18",
 			"exploration",
@@ -84,6 +96,7 @@ fn shard(ctx: &Ctx, rep: &mut Report) {
 fn run_one(ctx: &Ctx, rep: &mut Report, case_seed: u64, variant: u64) {
 	match ctx.prop.as_str() {
 		"C05" => c05::run_case(ctx, rep, case_seed, variant),
+		"C11" => c11::run_case(ctx, rep, case_seed, variant),
 		"C15" => c15::run_case(ctx, rep, case_seed, variant),
 		"C18" => c18::run_case(ctx, rep, case_seed, variant),
 		_ => {},
